@@ -1,5 +1,5 @@
 '''C03 - scheduling terminates and leaves no worker behind.'''
-from ..rules import sched_rel, sched_worker, patterns
+from ..rules import sched_rel, sched_worker, patterns, depgraph
 
 ID = 'C03'
 CLAIM = '''
@@ -23,6 +23,15 @@ REL-2 / REL-4 (liveness side of the decision table): a task leaves the
 master's list without being queued (row returning None) only when it is DONE,
 and a row returning WAITING keeps it WAITING: a task dropped while PENDING or
 WAITING is never run and its dependents wait for ever.
+TOPO-CYCLE - topological_sort detects a cycle in its recursive visitor, or
+after its work-list loop under a completeness test (a cyclic job raises
+instead of leaving tasks that wait for each other for ever).
+QUEUE-API - the backends use the work queue through put / get / task_done /
+join only (no access to its deque, mutex or counters: join() waits on the
+put / task_done accounting).
+STATUS-WRITERS - in the backends a task status is written only by the
+decision function (REL rows), by the master loop in front of it (REL prelude
+rows) and by the worker around Task.do (WRK): no other transition exists.
 Not decided: termination of Task.do, liveness under unfair OS scheduling.
 '''
 ASSUMPTIONS = [
@@ -40,6 +49,9 @@ def check(ctx):
     ctx.run(sched_rel.check_lock)
     ctx.run(sched_worker.check_backend_owned)
     ctx.run(sched_rel.check_rel, {'REL-2', 'REL-4'})
+    ctx.run(sched_rel.check_status_writers)
+    ctx.run(sched_worker.check_queue_api)
+    ctx.run(depgraph.check_topo_cycle)
     ctx.run(patterns.check_patterns, ID)
 
 
